@@ -145,6 +145,14 @@ fn run_case(out: &mut Out, line: &Value) {
             out.cmp(line, "iter(start).min/max by position", &json!([at(0), at(n.wrapping_sub(1))]), guard(|| { let v: Vec<Weekday> = a.iter(d).collect(); json!([owd(v.first().copied()), owd(v.last().copied())]) }));
             out.cmp(line, "collect() of a sequence with repeated members", &line["a"], guard(|| proj_set(a.iter(d).chain(a.iter(Weekday::Mon)).chain(a.iter(d).rev()).collect::<WeekdaySet>())));
             out.cmp(line, "collect() of members plus the start day twice", &line["insert"], guard(|| proj_set(a.iter(d).chain([d, d]).collect::<WeekdaySet>())));
+            // from_array: any length, repeated members
+            out.cmp(line, "WeekdaySet::from_array([d])", &line["single"], guard(|| proj_set(WeekdaySet::from_array([d]))));
+            out.cmp(line, "WeekdaySet::from_array(members in iter order, twice, + d)", &line["insert"], guard(|| {
+                let v: Vec<Weekday> = a.iter(d).collect();
+                let mut arr = [d; 15];
+                for (i, x) in v.iter().chain(v.iter()).enumerate() { arr[i] = *x; }
+                proj_set(WeekdaySet::from_array(arr)) }));
+            out.cmp(line, "WeekdaySet::from_array([])", &json!([]), guard(|| proj_set(WeekdaySet::from_array([]))));
             out.cmp(line, "extend-like fold of insert", &line["insert"], guard(|| { let mut s = WeekdaySet::EMPTY; for x in a.iter(d).chain([d, d]) { s.insert(x); } proj_set(s) }));
         }
         "pair" => {
